@@ -365,6 +365,15 @@ fn templates_src() -> Vec<(&'static str, Vec<Clause>)> {
         ("fmt", vec![
             fact("fmt", vec![atom("%s is big; ")]), fact("fmt", vec![atom("<%s>")]), fact("fmt", vec![atom("plain ")]), fact("fmt", vec![atom("%s")]),
         ]),
+        // terminating recursion through negation, the same predicate negated at every level
+        ("win", vec![
+            fact("move", vec![atom("a"), atom("b")]), fact("move", vec![atom("b"), atom("c")]), fact("move", vec![atom("c"), atom("d")]), fact("move", vec![atom("a"), atom("e")]),
+            rule("win", vec![x()], G::And(vec![call("move", vec![x(), var("$Y")]), G::Not(Box::new(call("win", vec![var("$Y")])))])),
+        ]),
+        ("even", vec![
+            fact("even", vec![T::Int(0)]),
+            rule("even", vec![n.clone()], G::And(vec![G::Cmp(Cmp::Gt, n.clone(), T::Int(0)), G::Unify(m.clone(), func("subtract", vec![n.clone(), T::Int(1)])), G::Not(Box::new(call("even", vec![m.clone()])))])),
+        ]),
         ("rev", vec![
             fact("rev", vec![list(vec![]), l.clone(), l.clone()]),
             rule("rev", vec![mk_list(vec![h.clone()], Some(t.clone())), l.clone(), r_.clone()],
@@ -413,6 +422,8 @@ impl<'r> ProgGen<'r> {
                      else { call("app", vec![self.ground_list(), self.ground_list(), self.cvar()]) },
             "len" => call("len", vec![self.ground_list(), self.cvar()]),
             "down" => call("down", vec![T::Int(self.r.below(4) as i64), self.cvar()]),
+            "win" => call("win", vec![if self.r.chance(1, 2) { self.cvar() } else { atom(["a", "b", "c", "d", "e"][self.r.below(5)]) }]),
+            "even" => call("even", vec![T::Int(self.r.below(5) as i64)]),
             "fmt" => { let f = self.cvar(); G::And(vec![call("fmt", vec![f.clone()]), G::Print(vec![f, self.constant()])]) }
             _ => call("rev", vec![self.ground_list(), list(vec![]), self.cvar()]),
         })
@@ -481,6 +492,7 @@ impl<'r> ProgGen<'r> {
         let mut clauses: Vec<Clause> = vec![];
         for (name, cl) in &all {
             if *name == "fmt" && !self.f.print { continue; }
+            if (*name == "win" || *name == "even") && !self.f.not { continue; }
             if self.r.chance(1, 3) { self.templates.push(name); clauses.extend(cl.iter().cloned()); }
         }
         for i in 0..npred {
